@@ -216,8 +216,11 @@ def rules(fx, rep):
     c04.rule_checked(fx, rep)
     c19.rule_point_deserializers(fx, rep)
     c14.map_rules(fx, rep)
-    from props import c06
+    from props import c06, c01
     c06.rule_hash_wiring(fx, rep)
+    # results of arithmetic: the exceptional-case skeleton of the group operations (shared with C01)
+    c01.rule_projective_ops(fx, rep)
+    c01.rule_sub_defaults(fx, rep)
 
 
 def main(tier, t0):
